@@ -161,6 +161,18 @@ def specWiringWith (g : GraphVal) (cn : Str → Str) (define : Bool) (ord : List
 def specWiring (g : GraphVal) (define : Bool) (ord : List Nat) : Wiring :=
   specWiringWith g (canon g) define ord
 
+/-- the export-map entries that name a definition by a name other than its current one
+    (`export()` on a definition node renames the definition; the earlier names stay in the map) -/
+def renamedDefExports (g : GraphVal) : List (Str × Nat) :=
+  g.exports.filter fun e =>
+    match g.node? e.2 with
+    | some n => n.isDefinition && n.exportName != some e.1
+    | none => false
+
+/-- the graph without them -/
+def dropRenamedDefs (g : GraphVal) : GraphVal :=
+  { g with exports := g.exports.filter fun e => !(renamedDefExports g).contains e }
+
 /-! ### comparison up to what the property does not constrain -/
 
 /-- insertion sort by a key rendered as a string (only used for canonical comparison) -/
